@@ -437,7 +437,7 @@ Section OpSaveProofs.
     (saves st o = true -> exists d, st_file (fst (step enc dec st o)) = Some d) /\
     (saves st o = false -> fst (step enc dec st o) = st).
   Proof.
-    destruct o as [a|a c|a]; simpl.
+    destruct o as [a|a c|a|s']; simpl; [| | |split; [intros _; eexists; reflexivity|discriminate]].
     - split; [discriminate|reflexivity].
     - destruct (put_accepts a c); simpl; split; try discriminate; try reflexivity.
       intros _. eexists. reflexivity.
